@@ -94,7 +94,7 @@ CmpAsc == [t |-> "cmp", k |-> "numasc"]
 CmpDesc == [t |-> "cmp", k |-> "numdesc"]
 SimpleCalls ==
     {C("push", a) : a \in {<<>>, <<V9>>, <<V9, V8>>}} \cup {C("unshift", a) : a \in {<<>>, <<V9>>, <<V9, V8>>}}
-    \cup {C(m, <<>>) : m \in {"pop", "shift", "reverse", "toString"}}
+    \cup {C(m, <<>>) : m \in {"pop", "shift", "reverse", "toString"}} \cup {C("toString", <<StrV(S_dash)>>)}
     \cup {C("join", a) : a \in {<<>>, <<Undef>>, <<StrV(S_dash)>>, <<StrV(<<>>)>>, <<Null>>, <<V1>>}}
     \cup {C("concat", a) : a \in {<<>>, <<V9>>, <<Ref(4)>>, <<Ref(5)>>, <<Ref(4), V9, Ref(4)>>, <<Undef>>, <<Ref(3)>>}}
 
